@@ -185,6 +185,85 @@ theorem C10_no_stale (c : Cfg) :
 /-- the empty scheduler satisfies the one-entry invariant, so (i) covers every history from the start -/
 theorem C10_initial_uniq : Uniq ({} : S).heap := by intro a; simp [cnt]
 
+/-- **The whole refresh chain of a scheduled query, from any running state.**  `Chain … n w` (`Zc.Sched.Chain`): a send asking
+the type lies in `[w, w + minDelay]`, and — unless the follow-up would not precede the expiry — so does one in
+`[p + 100·ttl, … + minDelay]` where `p` is that send's time (10 % of the TTL later), and so on for `n` links; at each link
+the alternative is that the history (last block at `lastTime`) has not yet gone beyond that link's deadline.  The clock
+hypothesis of `C10_refresh` is discharged here: it follows from `earliest ≤ clk + minDelay` (an invariant of every history,
+`Sched.inv_exec` / `Sched.earliest_le_clock`) and `clk ≤ q.when` (the query is not already overdue). -/
+theorem C10_chain_entry (c : Cfg) (s : S) (clk : Int) (q : Q) (evs : List (Int × Op)) (s' : S) (outs : List Send) (links : Nat)
+    (h : Post s) (hq : q ∈ s.heap) (hl : q.cancelled = false) (hearl : s.earliest ≤ clk + c.minDelay) (hclk : clk ≤ q.when)
+    (hact : Active evs) (hun : Untouched q.alias evs) (hex : exec c s clk evs = some (s', outs)) :
+    Chain c q.name q.ttl q.expire (lastTime clk evs) outs links q.when :=
+  chain_core c q.name q.ttl q.expire evs links s clk s' outs q h hq hl rfl rfl rfl (by omega) (by omega)
+    (fun e he => ⟨hact e he, hun e he⟩) hex
+
+theorem startupOffset_le (k : Nat) : startupOffset k ≤ 14000 := by
+  have : k = 0 ∨ k = 1 ∨ k = 2 ∨ 3 ≤ k := by omega
+  rcases this with rfl | rfl | rfl | h3
+  · simp [startupOffset]
+  · simp [startupOffset]
+  · simp [startupOffset]
+  · rw [startupOffset_ge3 h3]; omega
+
+/-- **Refresh liveness, whole chain, from the start of the browser.**  Take any history of an active browser: `start`, any
+blocks `pre` that never mention instance `a`, then — after the start-up phase (`t0 + d + 14000 < t`) — the pointer record of
+`a` (type `n`, TTL `ttl`, created `cr`, learned at `t` not after its own 75 % time), then any blocks `evs` in which that record
+is neither refreshed nor withdrawn (other records come and go, in any order, with any TTLs — in particular longer-lived ones
+learned earlier, the D7 history).  Then the type is queried in `[cr + 750·ttl, … + minDelay]`, again 10 % of the TTL after that
+query (at most `minDelay` late), and so on until a follow-up would not precede the expiry `cr + 1000·ttl` — as far as the history
+extends (`Chain`, for every number of links). -/
+theorem C10_refresh_chain (types : List String) (minDelay : Nat) (qtype : Option Bool) (t0 : Int) (d : Nat)
+    (pre : List (Int × Op)) (t : Int) (a n : String) (ttl : Nat) (cr : Int) (evs : List (Int × Op)) (s' : S) (outs : List Send)
+    (links : Nat)
+    (hpre : Active pre) (hfresh : Untouched a pre) (hact : Active evs) (hun : Untouched a evs)
+    (hstarted : t0 + d + 14000 < t) (hbefore : t ≤ cr + 750 * ttl)
+    (hex : exec (browserCfg types minDelay qtype) {} t0 ((t0, .start d) :: (pre ++ (t, .ptr a n ttl cr) :: evs)) = some (s', outs)) :
+    Chain (browserCfg types minDelay qtype) n ttl (cr + 1000 * ttl) (lastTime t evs) outs links (cr + 750 * ttl) := by
+  obtain ⟨_, s1, o1, o2, hst, hex2, rfl⟩ := exec_cons hex
+  simp only [step] at hst
+  split at hst
+  · simp only [Option.some.injEq, Prod.mk.injEq] at hst
+    have hpre1 : Pre (t0 + d) s1 := by
+      rw [← hst.1]
+      exact ⟨by simp, rfl, by simp [startupOffset], by simp [Sorted]⟩
+    have hcnt1 : cnt a s1.heap = 0 := by rw [← hst.1]; simp [cnt]
+    obtain ⟨s2, p1, p2, hexpre, hexrest, rfl⟩ := exec_append _ pre s1 t0 _ s' o2 hex2
+    have hinv := inv_exec _ (t0 + d) pre s1 t0 s2 p1 (Or.inl hpre1) hpre hexpre
+    have hcnt2 : cnt a s2.heap = 0 :=
+      noentry_exec _ a pre s1 t0 s2 p1 hcnt1 (fun e he => ⟨hpre e he, hfresh e he⟩) hexpre
+    obtain ⟨hen, s3, q1, o3, hst3, hex3, rfl⟩ := exec_cons hexrest
+    rcases hinv with hp | ⟨hp, hearl⟩
+    · -- still in start-up at time `t`: impossible, the start-up timer would have been passed
+      exfalso
+      have : t ≤ t0 + d + startupOffset s2.startupSent := by
+        have := hen; simp [enabledAt, hp.armed] at this; exact this.2
+      have := startupOffset_le s2.startupSent
+      omega
+    · have hclk2 := (enabled_post hp hen).1
+      simp only [step, Option.some.injEq, Prod.mk.injEq] at hst3
+      have hq0 : firstQuery a n ttl cr ∈ s3.heap := by
+        rw [← hst3.1]; exact reschedule_fresh _ a n ttl cr (current_none_of_cnt_zero hcnt2)
+      have hp3 : Post s3 := by rw [← hst3.1]; exact post_reschedule _ hp a n ttl cr
+      have he3 : s3.earliest = s2.earliest := by rw [← hst3.1]; simp
+      have hw := firstQuery_when a n ttl cr
+      have hch := chain_core _ n ttl (cr + 1000 * ttl) evs links s3 t s' o3 (firstQuery a n ttl cr) hp3 hq0 rfl rfl rfl
+        (firstQuery_expire a n ttl cr) (by rw [hw, he3]; simp only [browserCfg] at hearl ⊢; omega) (by rw [hw]; omega)
+        (fun e he => ⟨hact e he, hun e he⟩) hex3
+      rw [hw] at hch
+      rw [← hst.2, ← hst3.2]
+      exact chain_mono_outs (chain_mono_outs (chain_mono_outs hch))
+  · simp at hst
+
+/-- `Chain` unfolded for the first two links, for readers: the 75 % query and the 85 % one -/
+example (c : Cfg) (name : String) (ttl : Nat) (expire H : Int) (outs : List Send) (w : Int) :
+    Chain c name ttl expire H outs 2 w ↔
+      (H ≤ w + c.minDelay ∨ ∃ o ∈ outs, w ≤ o.t ∧ o.t ≤ w + c.minDelay ∧ name ∈ o.types ∧
+        (expire ≤ o.t + 100 * ttl ∨
+          (H ≤ o.t + 100 * ttl + c.minDelay ∨ ∃ o' ∈ outs, o.t + 100 * ttl ≤ o'.t ∧ o'.t ≤ o.t + 100 * ttl + c.minDelay ∧ name ∈ o'.types ∧
+            (expire ≤ o'.t + 100 * ttl ∨ True)))) := by
+  simp [Chain]
+
 /-! ### the hypotheses are satisfiable (non-vacuity) -/
 
 /-- a history accepted by the loop axioms: start, the four start-up queries, a 4500 s record learned at
@@ -200,6 +279,18 @@ example : ((exec (browserCfg ["_x._tcp.local."] 10000 none) {} 0
      (20000, .ptr "a" "_x._tcp.local." 4500 20000), (24050, .fire false),
      (60000, .ptr "b" "_x._tcp.local." 1200 60000), (960000, .fire false)]).map (fun r => r.2.map (·.t)))
     = some [50, 1050, 5050, 14050, 960000] := by decide
+
+/-- the hypotheses of `C10_refresh_chain` hold for that history (`pre` = start-up queries, the long-lived record and a pass;
+the short-lived record `b` is learned at 60 s, before its 75 % time 960 s, after the start-up phase) -/
+example :
+    Active [(50, Op.fire false), (1050, .fire false), (5050, .fire false), (14050, .fire false),
+            (20000, .ptr "a" "_x._tcp.local." 4500 20000), (24050, .fire false)] ∧
+    Untouched "b" [(50, Op.fire false), (1050, .fire false), (5050, .fire false), (14050, .fire false),
+            (20000, .ptr "a" "_x._tcp.local." 4500 20000), (24050, .fire false)] ∧
+    Active [(960000, Op.fire false)] ∧ Untouched "b" [(960000, Op.fire false)] ∧
+    (0 : Int) + (50 : Nat) + 14000 < 60000 ∧ (60000 : Int) ≤ 60000 + 750 * (1200 : Nat) := by
+  unfold Active Untouched
+  decide
 
 /-- a running-phase state with a live entry: `Post`, `Uniq` and the hypotheses of `C10_refresh` are satisfiable -/
 example : ∃ s : S, ∃ q : Q, Post s ∧ Uniq s.heap ∧ q ∈ s.heap ∧ q.cancelled = false ∧ s.earliest ≤ q.when + 10000 := by
